@@ -78,4 +78,139 @@ theorem argval_sel (r : RefTable) (op arg : Nat) (consts names varnames cells lp
   repeat' split
   all_goals first | rfl | simp [evalSel]
 
+theorem nameInfo_of (i : Nat) (tbl : List Nat) (res : Res) (h : nameAt i tbl = some res) : nameInfo i tbl = res := by
+  unfold nameAt at h; unfold nameInfo
+  cases hx : tbl[i]? <;> simp_all
+
+theorem const_of (i : Nat) (tbl : List Nat) (res : Res) (h : nameAt i tbl = some res) :
+    (match tbl[i]? with | some c => Res.entry c | none => Res.indexError) = res := by
+  unfold nameAt at h
+  cases hx : tbl[i]? <;> simp_all
+
+theorem pair_of (arg : Nat) (lp : List Nat) (res : Res) (h : pairAt arg lp = some res) :
+    Res.pair (nameInfo (arg >>> 4) lp) (nameInfo (arg &&& 15) lp) = res := by
+  unfold pairAt at h
+  cases h1 : nameAt (arg >>> 4) lp with
+  | none => simp [h1] at h
+  | some a =>
+    cases h2 : nameAt (arg &&& 15) lp with
+    | none => simp [h1, h2] at h
+    | some b =>
+      simp [h1, h2] at h
+      rw [nameInfo_of _ _ _ h1, nameInfo_of _ _ _ h2, h]
+
+theorem cmp_of (i : Nat) (ops : List Str) (res : Res) (h : (ops[i]?).map Res.cmp = some res) :
+    (match ops[i]? with | some c => Res.cmp c | none => Res.indexError) = res := by
+  cases hx : ops[i]? <;> simp_all
+
+/-- xdis's rule, when the index is in range, is its selector -/
+theorem resolve_sel (t : OpTable) (op arg : Nat) (consts names varnames cells : List Nat) (res : Res)
+    (h : evalSel (selM t op) arg consts names varnames cells (localsplus varnames cells) t.cmpOp = some res) :
+    resolve t op arg consts names varnames cells = res := by
+  unfold selM at h
+  unfold resolve
+  simp only [] at h ⊢
+  repeat' split at h
+  all_goals simp only [*, if_true, if_false, Bool.false_eq_true] at *
+  all_goals first
+    | exact const_of _ _ _ h
+    | exact nameInfo_of _ _ _ h
+    | exact pair_of _ _ _ h
+    | exact cmp_of _ _ _ h
+    | (simp only [evalSel] at h; first | exact const_of _ _ _ h | exact nameInfo_of _ _ _ h | exact pair_of _ _ _ h | exact cmp_of _ _ _ h | cases h)
+
+/-- comparison operators are spelled with '-' by xdis and ' ' by CPython -/
+def normRes : Res → Res
+  | .cmp s => .cmp (dashToSpace s)
+  | x => x
+
+def isDefinedRef (r : RefTable) (op : Nat) : Bool := r.opmap.any (·.2 == op)
+
+/-- xdis and CPython select the same table and shift for every opcode CPython defines -/
+def selOk (t : OpTable) : Bool :=
+  match Spec.OpTables.refFor t with
+  | none => true
+  | some r => (List.range 256).all fun op => !(isDefinedRef r op) || decide (selM t op = selS r op)
+
+theorem C03_sel_tables : ∀ t ∈ Gen.allTables, selOk t = true := by decide +kernel
+
+theorem natsEq_eq (a b : List Nat) (h : Spec.OpTables.natsEq a b = true) : a = b := by
+  induction a generalizing b with
+  | nil => cases b <;> simp_all [Spec.OpTables.natsEq]
+  | cons x xs ih =>
+    cases b with
+    | nil => simp [Spec.OpTables.natsEq] at h
+    | cons y ys =>
+      simp only [Spec.OpTables.natsEq, Bool.and_eq_true] at h
+      rw [Nat.eq_of_beq_eq_true h.1, ih ys h.2]
+
+/-- from C03_cmp: CPython's operator at index i is xdis's, with '-' read as ' ' -/
+theorem cmp_at (t : OpTable) (r : RefTable) (hc : (r.cmpOp.zip t.cmpOp).all (fun p => Spec.OpTables.natsEq p.1 (dashToSpace p.2)) = true)
+    (hl : r.cmpOp.length ≤ t.cmpOp.length) (i : Nat) (c : Str) (h : r.cmpOp[i]? = some c) :
+    ∃ c', t.cmpOp[i]? = some c' ∧ c = dashToSpace c' := by
+  have hi : i < r.cmpOp.length := by
+    rcases Nat.lt_or_ge i r.cmpOp.length with h1 | h1
+    · exact h1
+    · rw [List.getElem?_eq_none h1] at h; cases h
+  have hi' : i < t.cmpOp.length := by omega
+  refine ⟨t.cmpOp[i], by simp [hi'], ?_⟩
+  rw [List.all_eq_true] at hc
+  have hm : (r.cmpOp[i], t.cmpOp[i]) ∈ r.cmpOp.zip t.cmpOp := by
+    rw [List.mem_iff_getElem]
+    exact ⟨i, by simp; omega, by simp⟩
+  have := natsEq_eq _ _ (hc _ hm)
+  simp only at this
+  rw [← this]
+  simp [List.getElem?_eq_getElem hi] at h
+  exact h.symm
+
+/-- C03_resolve: on every table with a reference interpreter, for every opcode that interpreter defines,
+    every operand and every constants / names / locals / cells tables (`lp` being the merged 3.11+ table,
+    which xdis rebuilds — C03_split_join): whenever CPython's dis resolves the operand, xdis resolves it
+    to the same entry (comparison operators up to the spelling of '-') -/
+theorem C03_resolve (t : OpTable) (ht : t ∈ Gen.allTables) (r : RefTable) (hr : Spec.OpTables.refFor t = some r)
+    (op : Nat) (hop : op < 256) (hdef : isDefinedRef r op = true) (arg : Nat)
+    (consts names varnames cells lp : List Nat) (hlp : localsplus varnames cells = lp) (res : Res)
+    (h : argval r op arg consts names varnames cells lp = some res) :
+    normRes (resolve t op arg consts names varnames cells) = res := by
+  have hs := C03_sel_tables t ht
+  simp only [selOk, hr, List.all_eq_true, List.mem_range, Bool.or_eq_true, Bool.not_eq_true', decide_eq_true_eq] at hs
+  have hsel : selM t op = selS r op := by
+    rcases hs op hop with h1 | h1
+    · rw [hdef] at h1; cases h1
+    · exact h1
+  have hcm := C03_cmp t ht
+  simp only [cmpOk, hr, Bool.and_eq_true, decide_eq_true_eq] at hcm
+  rw [argval_sel, ← hsel, ← hlp] at h
+  -- comparison operators: move from CPython's tuple to xdis's
+  cases hsm : selM t op with
+  | cmp k =>
+    rw [hsm] at h
+    simp only [evalSel, Option.map_eq_some_iff] at h
+    obtain ⟨c, hc, rfl⟩ := h
+    obtain ⟨c', hc', rfl⟩ := cmp_at t r hcm.1 hcm.2 _ c hc
+    have : evalSel (selM t op) arg consts names varnames cells (localsplus varnames cells) t.cmpOp = some (.cmp c') := by
+      rw [hsm]; simp [evalSel, hc']
+    rw [resolve_sel t op arg consts names varnames cells _ this]
+    rfl
+  | const | name _ | pair | lp | varnames | cells | none =>
+    have h' : evalSel (selM t op) arg consts names varnames cells (localsplus varnames cells) t.cmpOp = some res := by
+      rw [hsm] at h ⊢; exact h
+    rw [resolve_sel t op arg consts names varnames cells res h']
+    rw [hsm] at h
+    simp only [evalSel, nameAt, pairAt] at h
+    first
+      | (simp only [Option.map_eq_some_iff] at h; obtain ⟨_, _, rfl⟩ := h; rfl)
+      | (cases h)
+      | (repeat' split at h
+         all_goals first | (cases h; rfl) | (simp at h))
+
+/-- non-vacuity: CPython 3.12 resolves LOAD_GLOBAL 5 to names[2], LOAD_SUPER_ATTR 9 to names[2], COMPARE_OP 40 to
+    cmp_op[2]; 3.13 resolves LOAD_FAST_LOAD_FAST 0x21 to the pair (lp[2], lp[1]) — and 116 is defined in the 3.12 reference -/
+example : (Spec.OpTables.refFor Gen.opcode_312).bind (fun r => argval r 116 5 [] [10, 20, 30] [] [] []) = some (.entry 30) ∧
+    (Spec.OpTables.refFor Gen.opcode_312).bind (fun r => argval r 141 9 [] [10, 20, 30] [] [] []) = some (.entry 30) ∧
+    ((Spec.OpTables.refFor Gen.opcode_312).map (fun r => isDefinedRef r 116)) = some true ∧
+    (Spec.OpTables.refFor Gen.opcode_313).bind (fun r => argval r 88 0x21 [] [] [] [] [7, 8, 9]) = some (.pair (.entry 9) (.entry 8)) := by
+  decide +kernel
+
 end XV.Props.C03
